@@ -18,7 +18,7 @@ from .. import core, gen, history as hist, observers as ob, user
 ID = "C14"
 LEVEL = "exploration"
 RUNS = {"quick": 1200, "thorough": 40000}
-WALL_CAP = {"quick": 240, "thorough": 2400}
+WALL_CAP = {"quick": 240, "thorough": 1500}
 EVALS_FROM_STATS = True
 RULE = (
     "case = seeded directory of .zo pages, .zot templates and .zoq query pages in sub-directories whose "
